@@ -180,12 +180,12 @@ func degOf(ind *reg.Indicator, j int) reg.Degree {
 }
 
 func c15(ctx *run.Ctx) {
-	nrand := ctx.Pick(6, 30)
+	nrand := ctx.Pick(6, 60)
 	lengths := []int{60, 160}
 	if !ctx.Quick() {
 		lengths = []int{60, 160, 400}
 	}
-	reps := ctx.Pick(2, 6)
+	reps := ctx.Pick(2, 10)
 	for _, ind := range reg.Sorted() {
 		ind := ind
 		iv, ok := invariants[ind.Name]
